@@ -109,6 +109,14 @@ def mac_lines(rng, stats):
         n = rng.choice([10, 64, 100])
         out.append("HK %s %s %s %s %s" % (v, hx(key), hx(salt), hx(info), ",".join(map(str, chunk_sizes(rng, n, 32)))))
         out.append("HKO %s %s %s %s %d" % (v, hx(key), hx(salt), hx(info), n))
+    if rng.random() < 0.25:
+        # the last legal HKDF block (255) read in several calls: any split of the whole 8160-byte stream must equal the one-shot output
+        v = rng.choice(["hkdf", "hkdfa"])
+        key, salt, info = rnd_bytes(rng, 16), rnd_bytes(rng, 8), rnd_bytes(rng, 3)
+        cut = rng.choice([8129, 8150, 8159, 8128 + rng.randrange(1, 32)])
+        tail = 8160 - cut
+        out.append("HK %s %s %s %s %s" % (v, hx(key), hx(salt), hx(info), ",".join(map(str, [cut] + chunk_sizes(rng, tail, 8)))))
+        out.append("HKO %s %s %s %s %d" % (v, hx(key), hx(salt), hx(info), 8160))
     stats["ops"]["mac-kdf-pairs"] += len(out) // 2
     return out
 
